@@ -317,6 +317,14 @@ def add_bundle(draw, spec):
         c2 = [x for x in [draw(st.sampled_from(names))] if x not in c1]
         bundles.append({"k": [add(s_, dst, ["anyev"], c1, []) for s_ in nonfinal], "how": "any"})
         bundles.append({"k": [add(s_, dst, ["anyev"], c2, []) for s_ in nonfinal], "how": "any"})
+    # callbacks given to the bundle declaration itself (every transition the one call produces carries them)
+    is_async = is_async_spec(spec)
+    for bi, b in enumerate(bundles):
+        for j in range(draw(st.integers(0, 2))):
+            grp = draw(st.sampled_from(["validators", "validators", "before", "on", "after"]))
+            attach = draw(st.sampled_from(["name", "func"]))
+            spec["cbs"].append({"name": f"b{bi}_{grp}{j}", "group": grp, "scope": ["trans", list(b["k"])], "attach": attach, "prov": "machine" if attach == "name" else "free",
+                                "async": is_async and draw(st.booleans()), "yields": 0, "ret": draw(st.sampled_from([None, 1, "r"])), "sends": {}})
     for t in spec["trans"]:
         for e in t["events"]:
             if e not in spec["events"]:
